@@ -13,7 +13,10 @@ func (cs *ConsensusState) VerifRotateWAL() {
 	defer cs.mtx.Unlock()
 	if cs.wal != nil {
 		cs.wal.group.Flush()
-		cs.wal.group.RotateFile()
+		// checkHeadSizeLimit rotates only a head that has reached the size limit, never an empty one
+		if size, err := cs.wal.group.Head.Size(); err == nil && size > 0 {
+			cs.wal.group.RotateFile()
+		}
 	}
 }
 
